@@ -132,4 +132,17 @@ CLAIMS = {
              "which its handlers never veto. Liveness in general, cancellation races and path-restore logic are not decided.",
         technique="typestate pairing on the coroutine CFG (trackers, locks, futures); guard analysis; boolean-event handler return check",
         ref="4/C05"),
+    "C04": dict(
+        text="Narrow static claim: (1) in the eject loop every attempt awaits the *target's* wait_for_ready_to_receive "
+             "before the ball is fired, with no other wait in between; that gate answers ready only when capacity minus "
+             "counted balls exceeds the balls already on their way (re-read every round) and counter and outgoing handler "
+             "can take a ball; (2) ejectors are fired only by the eject coroutine and the device count is written only by "
+             "the count handler (plus one tabled recount), together with its mirror and has-balls event; (3) count "
+             "transfers are paired: +1/-1 around an already-left eject, exactly (new-old) arrivals announced, the exact "
+             "difference handed to the missing-ball logic, an eject chain debits the source and credits the last hop by "
+             "one on every completed path and never without an available ball, playfield counts move by `balls` only for "
+             "ejects aimed at that playfield. Equality with the physical machine, conservation and bounds over all "
+             "schedules - the bulk of the property - are NOT decided (runtime arithmetic over interleavings).",
+        technique="CFG must-pass / guard analysis; who-may-call / who-may-write; paired-delta extraction",
+        ref="4/C04"),
 }
